@@ -1,0 +1,178 @@
+//! Verification hooks (cargo feature `verif-hooks`, off by default).
+//!
+//! Records, per thread, a line-oriented log of what the solver does (variables
+//! interned, clauses added, assignments, undos, learnt clauses) so that an
+//! external checker can replay it. Not part of the stable API.
+
+use std::cell::RefCell;
+
+use super::{
+    binary_encoding::AtMostOnceTracker,
+    clause::{Clause, Literal},
+    decision::Decision,
+};
+use crate::{
+    NameId, Requirement, SolvableId,
+    internal::{
+        arena::ArenaId,
+        id::{ClauseId, LearntClauseId, SolvableOrRootId, VariableId},
+    },
+};
+
+thread_local! {
+    static LOG: RefCell<Option<Vec<String>>> = const { RefCell::new(None) };
+}
+
+/// Starts recording events on the current thread, dropping earlier ones.
+pub fn start() {
+    LOG.with(|l| *l.borrow_mut() = Some(Vec::new()));
+}
+
+/// Stops recording and returns the recorded events.
+pub fn take() -> Vec<String> {
+    LOG.with(|l| l.borrow_mut().take().unwrap_or_default())
+}
+
+fn emit(line: impl FnOnce() -> String) {
+    LOG.with(|l| {
+        if let Some(log) = l.borrow_mut().as_mut() {
+            log.push(line())
+        }
+    });
+}
+
+fn lit(l: Literal) -> String {
+    format!(
+        "{}{}",
+        if l.negate() { '-' } else { '+' },
+        l.variable().to_usize()
+    )
+}
+
+fn req(r: Requirement) -> String {
+    match r {
+        Requirement::Single(vs) => format!("single {}", vs.to_usize()),
+        Requirement::Union(u) => format!("union {}", u.to_usize()),
+    }
+}
+
+pub(crate) fn var_solvable(var: VariableId, solvable: SolvableId) {
+    emit(|| format!("var {} solvable {}", var.to_usize(), solvable.to_usize()));
+}
+
+pub(crate) fn var_forbid(var: VariableId, name: NameId) {
+    emit(|| format!("var {} forbid {}", var.to_usize(), name.to_usize()));
+}
+
+pub(crate) fn clause_added(id: usize, kind: &Clause) {
+    emit(|| match *kind {
+        Clause::InstallRoot => format!("clause {id} root"),
+        Clause::Requires(p, r) => format!("clause {id} requires {} {}", p.to_usize(), req(r)),
+        Clause::ForbidMultipleInstances(a, b, n) => format!(
+            "clause {id} forbid {} {} {}",
+            a.to_usize(),
+            lit(b),
+            n.to_usize()
+        ),
+        Clause::Constrains(p, c, vs) => format!(
+            "clause {id} constrains {} {} {}",
+            p.to_usize(),
+            c.to_usize(),
+            vs.to_usize()
+        ),
+        Clause::Lock(l, o) => format!("clause {id} lock {} {}", l.to_usize(), o.to_usize()),
+        Clause::Learnt(l) => format!("clause {id} learnt {}", l.to_usize()),
+        Clause::Excluded(v, s) => format!("clause {id} excluded {} {}", v.to_usize(), s.to_usize()),
+    });
+}
+
+pub(crate) fn requires_candidates(id: ClauseId, candidates: &[Vec<VariableId>], conflict: bool) {
+    emit(|| {
+        let mut s = format!("cands {} {}", id.to_usize(), conflict as u8);
+        for group in candidates {
+            s.push_str(" |");
+            for v in group {
+                s.push_str(&format!(" {}", v.to_usize()));
+            }
+        }
+        s
+    });
+}
+
+pub(crate) fn conflicting(id: ClauseId) {
+    emit(|| format!("conflicting {}", id.to_usize()));
+}
+
+pub(crate) fn assigned(d: &Decision, level: u32) {
+    emit(|| {
+        format!(
+            "assign {} {} {} {}",
+            d.variable.to_usize(),
+            d.value as u8,
+            level,
+            d.derived_from.to_usize()
+        )
+    });
+}
+
+pub(crate) fn undone(var: VariableId) {
+    emit(|| format!("undo {}", var.to_usize()));
+}
+
+pub(crate) fn cleared() {
+    emit(|| "clear".to_string());
+}
+
+pub(crate) fn learnt(id: LearntClauseId, literals: &[Literal], why: &[ClauseId]) {
+    emit(|| {
+        let mut s = format!("learnt {} lits", id.to_usize());
+        for &l in literals {
+            s.push(' ');
+            s.push_str(&lit(l));
+        }
+        s.push_str(" why");
+        for c in why {
+            s.push_str(&format!(" {}", c.to_usize()));
+        }
+        s
+    });
+}
+
+pub(crate) fn run_sat(root: SolvableOrRootId, starting_level: u32) {
+    emit(|| match root.solvable() {
+        None => format!("runsat root {starting_level}"),
+        Some(s) => format!("runsat {} {starting_level}", s.to_usize()),
+    });
+}
+
+pub(crate) fn soft_fail(root: SolvableOrRootId, clause: ClauseId) {
+    emit(|| match root.solvable() {
+        None => format!("softfail root {}", clause.to_usize()),
+        Some(s) => format!("softfail {} {}", s.to_usize(), clause.to_usize()),
+    });
+}
+
+pub(crate) fn unsolvable(clause: ClauseId) {
+    emit(|| format!("unsolvable {}", clause.to_usize()));
+}
+
+/// Runs the at-most-once tracker on the given sequence of variables, numbering
+/// helper variables from `first_helper`, and returns the emitted
+/// `(variable, helper, positive)` clauses in order.
+pub fn at_most_once_clauses(variables: &[u32], first_helper: u32) -> Vec<(u32, u32, bool)> {
+    let mut tracker = AtMostOnceTracker::<u32>::default();
+    let mut clauses = Vec::new();
+    let mut next = first_helper;
+    for &v in variables {
+        tracker.add(
+            v,
+            |a, b, positive| clauses.push((a, b, positive)),
+            || {
+                let h = next;
+                next += 1;
+                h
+            },
+        );
+    }
+    clauses
+}
